@@ -87,7 +87,11 @@ struct Inner {
     mutating_calls: BTreeMap<usize, u64>,
     in_commit_window: BTreeSet<usize>,
     /// Replicas whose root slots were hit by a sub-sector tear (sticky for the run).
-    subsector_root_tear: BTreeSet<usize>,
+    /// Root-area sectors of a replica that an *earlier* crash (before the most recent one) left torn
+    /// inside the sector and that have not been durably rewritten since.
+    torn_root_prev: BTreeMap<usize, BTreeSet<usize>>,
+    /// The same for the most recent crash of the replica.
+    torn_root_last: BTreeMap<usize, BTreeSet<usize>>,
     /// Crash-state exploration: images to take at every sync inside a commit window.
     /// Fail the pread with this index (counted from arming) with EIO, once.
     read_fault_in: Option<u32>,
@@ -119,7 +123,8 @@ impl SimFs {
                 counters: BTreeMap::new(),
                 mutating_calls: BTreeMap::new(),
                 in_commit_window: BTreeSet::new(),
-                subsector_root_tear: BTreeSet::new(),
+                torn_root_prev: BTreeMap::new(),
+                torn_root_last: BTreeMap::new(),
                 read_fault_in: None,
                 read_fault_fired: false,
                 explore,
@@ -180,8 +185,17 @@ impl SimFs {
         i.dirs.insert(rep, dir);
     }
 
-    pub fn had_subsector_root_tear(&self, rep: usize) -> bool {
-        self.inner.borrow().subsector_root_tear.contains(&rep)
+    /// A crash *before the most recent one* tore a root slot of `rep` inside a sector and that
+    /// sector has not been durably rewritten since (the precondition of the known finding: a
+    /// stale torn root that a later partial write can complete).
+    pub fn had_earlier_subsector_root_tear(&self, rep: usize) -> bool {
+        self.inner.borrow().torn_root_prev.get(&rep).is_some_and(|s| !s.is_empty())
+    }
+
+    /// Any actual crash so far left a torn root sector of `rep` that has not been rewritten.
+    pub fn has_stale_torn_root(&self, rep: usize) -> bool {
+        let i = self.inner.borrow();
+        i.torn_root_prev.get(&rep).is_some_and(|s| !s.is_empty()) || i.torn_root_last.get(&rep).is_some_and(|s| !s.is_empty())
     }
 
     pub fn is_crashed(&self, rep: usize) -> bool {
@@ -249,6 +263,7 @@ struct CrashImage {
     partial: bool,
     /// A root-slot sector was left in a state the page cache never held (sub-sector mode only).
     root_tear: bool,
+    root_tear_sectors: Vec<usize>,
 }
 
 /// Crash rule for one file.
@@ -271,6 +286,7 @@ fn crash_image(fs: &FileState, rng: &mut Rng, subsector: bool, f: usize) -> Cras
     let mut kept = 0;
     let mut lost = 0;
     let mut root_tear = false;
+    let mut root_tear_sectors: Vec<usize> = Vec::new();
     let put = |base: &mut Vec<u8>, abs: usize, bytes: &[u8]| {
         if (abs as u64) >= len {
             return false;
@@ -307,6 +323,7 @@ fn crash_image(fs: &FileState, rng: &mut Rng, subsector: bool, f: usize) -> Cras
                     // Anything but whole aligned sectors can leave a sector in a state the
                     // page cache never held.
                     root_tear = true;
+                    root_tear_sectors.push(abs / SECTOR);
                 }
                 pos += n;
             }
@@ -357,7 +374,7 @@ fn crash_image(fs: &FileState, rng: &mut Rng, subsector: bool, f: usize) -> Cras
     if base.len() as u64 > len {
         base.truncate(len as usize);
     }
-    CrashImage { bytes: base, len, partial: kept > 0 && lost > 0, root_tear }
+    CrashImage { bytes: base, len, partial: kept > 0 && lost > 0, root_tear, root_tear_sectors }
 }
 
 /// A crash image of one replica's directory taken at a sync point (crash-state exploration).
@@ -366,6 +383,8 @@ pub struct Snapshot {
     /// (file name, content, logical length)
     pub files: Vec<(Vec<u8>, Vec<u8>, u64)>,
     pub partial: bool,
+    /// When the image was taken, an actual earlier crash had left a root sector of the replica
+    /// torn inside the sector and it had not been durably rewritten since.
     pub root_tear: bool,
 }
 
@@ -398,10 +417,14 @@ impl Inner {
         let subsector = self.faults.subsector;
         let mut partial = false;
         let mut root_tear = false;
+        // The tears of the previous crash become "earlier" tears.
+        let last = self.torn_root_last.remove(&rep).unwrap_or_default();
+        self.torn_root_prev.entry(rep).or_default().extend(last);
         for f in files {
             let img = crash_image(&self.files[f], &mut rng, subsector, f);
             partial |= img.partial;
             root_tear |= img.root_tear;
+            self.torn_root_last.entry(rep).or_default().extend(img.root_tear_sectors.iter().copied());
             let fs = &mut self.files[f];
             fs.pending.clear();
             fs.data = img.bytes.clone();
@@ -411,7 +434,6 @@ impl Inner {
             fs.lock = None;
         }
         if root_tear {
-            self.subsector_root_tear.insert(rep);
             bump(self, "fault.subsector_root_tear");
         }
         let stale: Vec<RawFd> = self
@@ -709,11 +731,11 @@ impl SimFs {
                 i.explore_budget -= 1;
                 let names: Vec<(Vec<u8>, usize)> = i.dirs.get(&rep).map(|d| d.iter().map(|(k, v)| (k.clone(), *v)).collect()).unwrap_or_default();
                 let mut rng = Rng::new(i.explore_rng.next_u64());
-                let mut snap = Snapshot { rep, files: Vec::new(), partial: false, root_tear: false };
+                let stale = i.torn_root_prev.get(&rep).is_some_and(|s| !s.is_empty()) || i.torn_root_last.get(&rep).is_some_and(|s| !s.is_empty());
+                let mut snap = Snapshot { rep, files: Vec::new(), partial: false, root_tear: stale };
                 for (name, f) in names {
                     let img = crash_image(&i.files[f], &mut rng, subsector, f);
                     snap.partial |= img.partial;
-                    snap.root_tear |= img.root_tear;
                     snap.files.push((name, img.bytes, img.len));
                 }
                 i.snapshots.push(snap);
@@ -729,6 +751,16 @@ impl SimFs {
             bump(&mut i, "fault.eio_sync");
             i.hard_error.insert(rep);
             return Some(Err(EIO));
+        }
+        // A root sector that is durably rewritten no longer holds a stale torn record.
+        let rewritten: Vec<usize> = i.files[file].pending.iter().filter(|(off, _)| (ROOT_AREA.0..ROOT_AREA.1).contains(off)).map(|(off, _)| *off as usize / SECTOR).collect();
+        for sec in rewritten {
+            if let Some(s) = i.torn_root_prev.get_mut(&rep) {
+                s.remove(&sec);
+            }
+            if let Some(s) = i.torn_root_last.get_mut(&rep) {
+                s.remove(&sec);
+            }
         }
         let fs = &mut i.files[file];
         let pending = std::mem::take(&mut fs.pending);
@@ -816,7 +848,10 @@ impl Sim {
             if snap.partial {
                 self.stats.bump("explore.images_partial");
             }
-            let sig_of = |normal: &str| if snap.root_tear || fs.had_subsector_root_tear(r) { "root-slot-subsector-tear".to_string() } else { normal.to_string() };
+            // Cause-based signature of the known finding: the image is that of a *second* crash on
+            // top of a root slot an earlier crash left torn inside a sector and that has not been
+            // rewritten since. A failure of the first torn image itself is not that finding.
+            let sig_of = |normal: &str| if snap.root_tear { "root-slot-subsector-tear".to_string() } else { normal.to_string() };
             fs.install_image(scratch, &snap.files);
             self.qmon.borrow_mut().forget_all();
             let verdict: Result<(), (String, String, String)> = (|| {
@@ -1005,10 +1040,11 @@ impl Sim {
         let Some(fs) = self.fs.clone() else { return };
         fs.restart(r);
         self.qmon.borrow_mut().forget_all();
-        // Cause-based signature: once a root slot has been torn *inside* a sector (only possible
-        // in the opt-in sub-sector family) every recovery failure of that replica is attributed
-        // to that cause (see known-findings.txt).
-        let tear = fs.had_subsector_root_tear(r);
+        // Cause-based signature of the known finding (see known-findings.txt): a crash *before*
+        // the one being recovered from left a root slot torn inside a sector (only possible in the
+        // sub-sector family) and that slot has not been durably rewritten since, so the latest
+        // crash may have completed the stale record. A failure after a first tear is not that.
+        let tear = fs.had_earlier_subsector_root_tear(r);
         let sig_of = |normal: &str| if tear { "root-slot-subsector-tear".to_string() } else { normal.to_string() };
         let (old_committed, had_graph) = with_rep!(&self.reps[r], rep => (rep.committed.clone(), rep.has_graph));
         let spill = SpillKind::Faulty(Rc::clone(&self.spill_faults[r]));
